@@ -25,7 +25,11 @@
 // block names: b<k> valid scripted block, x<k> scripted block failing
 // ValidateBlock (wrong AppHash), o<h> the node's own proposal of height h.
 // Real blocks exist only for the height the node is at; references to other
-// heights use placeholder BlockIDs (the node ignores those messages).
+// heights use placeholder BlockIDs (the node ignores those messages).  o<h>
+// embeds the node's LastCommit, which may still grow while the node waits in
+// NewHeight: the generator names o<h> only after the node has left NewHeight
+// at height h (a script that names it earlier may see two different blocks
+// under one name — a limitation of the naming, not of the node).
 //
 // output after EVERY op: the whole observable round state (see observe()).
 //
